@@ -178,15 +178,16 @@ Proof. reflexivity. Qed.
 
 Lemma csum_positive cs d : Forall (fun c => 0 <= snd c) cs -> csum (positive_coins cs) d = csum cs d.
 Proof.
-  unfold csum, positive_coins, denom. induction 1 as [|c cs H0 H IH]; simpl in *; [reflexivity|].
-  destruct (Z.ltb_spec 0 (snd c)); simpl; [rewrite IH; reflexivity|].
-  rewrite IH. assert (snd c = 0) as -> by lia. destruct (fst c =? d); reflexivity.
+  unfold csum, positive_coins. induction cs as [|[d0 x] cs IH]; simpl; intros H; [reflexivity|].
+  inversion H as [|? ? Hx H']; subst. simpl in Hx. specialize (IH H').
+  destruct (Z.ltb_spec 0 x); simpl; [rewrite IH; reflexivity|].
+  rewrite IH. assert (x = 0) as -> by lia. destruct (d0 =? d); reflexivity.
 Qed.
 
 Lemma positive_coins_nonneg cs : Forall (fun c => 0 <= snd c) (positive_coins cs).
 Proof.
-  unfold positive_coins, denom. induction cs as [|c cs IH]; simpl; [constructor|].
-  destruct (Z.ltb_spec 0 (snd c)); [constructor; [lia|assumption]|assumption].
+  unfold positive_coins. induction cs as [|[d0 x] cs IH]; simpl; [constructor|].
+  destruct (Z.ltb_spec 0 x); [constructor; [simpl; lia|assumption]|assumption].
 Qed.
 
 Lemma amount_of_csum cs d : NoDup (map fst cs) -> amount_of cs d = csum cs d.
